@@ -15,6 +15,8 @@ Proof. split; vm_compute; reflexivity. Qed.
 Ltac comp := vm_compute; reflexivity.
 Notation fl := (flat_fn model_shapes env0).
 Lemma fl_clone : fl "Span::clone" = Some [(POwn KCloneSpan, false)]. Proof. comp. Qed.
+Lemma fl_es_clone : fl "EnteredSpan::clone" = Some [(POwn KCloneSpan, false)]. Proof. comp. Qed.
+Lemma fl_clone_from : fl "Span::clone_from" = Some [(POwn KCloneSpan, false); (POwn KTryClose, true)]. Proof. comp. Qed.
 Lemma fl_dropglue : fl "Span::dropglue" = Some [(POwn KTryClose, false)]. Proof. comp. Qed.
 Lemma fl_es_dropglue : fl "EnteredSpan::dropglue" = Some [(POwn KExit, false); (POwn KTryClose, true)]. Proof. comp. Qed.
 Lemma fl_e_dropglue : fl "Entered::dropglue" = Some [(POwn KExit, false)]. Proof. comp. Qed.
@@ -125,6 +127,9 @@ Proof.
   - (* SpanMutSwap *) abstract (cases H; fin H).
   - (* CloneFut *) abstract (destruct (kind_of o f) as [[| |b]|]; try discriminate H; cases H; inversion H; subst; clear H;
       cbn [obind]; rewrite shape_clone; reflexivity).
+  - (* CloneDrop *) abstract (cases H; inversion H; subst; clear H;
+      destruct (ents_on o r) as [|e [|e' l]]; try destruct (e_kind e); rewrite ?fl_clone, ?fl_es_clone, fl_dropglue; reflexivity).
+  - (* CloneFrom *) abstract (cases H; inversion H; subst; clear H; rewrite fl_clone_from; reflexivity).
   - (* PollBegin *) abstract (cases H; fin H).
   - (* PollEnd *) abstract (destruct (top_frame o t) as [e|]; [|discriminate H]; cbn [obind];
       cases H; inversion H; subst; clear H; cbn [obind]; rewrite shape_poll; destruct res; reflexivity).
